@@ -2,7 +2,7 @@
 # usage: tools/seed_regression.sh [name-prefix]  -- applies every stored seeded change to a scratch worktree of /repo HEAD
 # and runs the property's quick check against it; prints one line per seed (CAUGHT = exit 1 with a VIOLATION line).
 cd "$(dirname "$0")/.."
-WT=/tmp/wt-mut
+WT=${WT:-/tmp/wt-mut}
 if [ ! -d $WT ]; then git -C /repo worktree add -q --detach $WT HEAD; fi
 (cd $WT && git checkout -q --detach $(git -C /repo rev-parse HEAD) && git checkout -q -- . && git clean -fdq)
 for d in seeded/${1:-}*/; do
